@@ -269,27 +269,28 @@ Definition svc_loc_getters : list (string * list getter_spec) := [
   ("/api/loc/admin/updatedmem", [("GetStringParam", "location", true, true)]);
   ("/api/loc/events/ingest", [("getMapParam", "event", true, true); ("GetStringParam", "location", true, true)]);
   ("/api/loc/events/retry", [("GetStringParam", "work", true, true); ("GetStringParam", "location", true, true)]);
-  ("/api/loc/facts/add", [("getMapParam", "fact", true, true); ("GetStringParam", "location", true, true); ("GetStringParam", "id", false, false)]);
+  ("/api/loc/facts/add", [("getMapParam", "fact", true, true); ("GetStringParam", "location", true, true); ("GetStringParam", "id", false, true)]);
   ("/api/loc/facts/get", [("GetStringParam", "id", true, true); ("GetStringParam", "location", true, true)]);
   ("/api/loc/facts/query", [("getMapParam", "query", true, true); ("GetStringParam", "location", true, true)]);
   ("/api/loc/facts/rem", [("GetStringParam", "id", true, true); ("GetStringParam", "location", true, true)]);
-  ("/api/loc/facts/replace", []);
+  ("/api/loc/facts/replace", [("getMapParam", "fact", true, true); ("GetStringParam", "id", false, true)]);
   ("/api/loc/facts/search", [("getMapParam", "pattern", true, true); ("GetStringParam", "location", true, true); ("getBoolParam", "inherited", false, true)]);
   ("/api/loc/facts/take", []);
   ("/api/loc/parents", [("GetStringParam", "location", true, true); ("GetStringParam", "set", false, false)]);
-  ("/api/loc/rules/add", [("getMapParam", "rule", true, true); ("GetStringParam", "location", true, true); ("GetStringParam", "id", false, false)]);
+  ("/api/loc/rules/add", [("getMapParam", "rule", true, true); ("GetStringParam", "location", true, true); ("GetStringParam", "id", false, true)]);
   ("/api/loc/rules/disable", [("GetStringParam", "id", true, true); ("GetStringParam", "location", true, true)]);
   ("/api/loc/rules/enable", [("GetStringParam", "id", true, true); ("GetStringParam", "location", true, true)]);
   ("/api/loc/rules/enabled", [("GetStringParam", "id", true, true); ("GetStringParam", "location", true, true)]);
   ("/api/loc/rules/list", [("GetStringParam", "location", true, true); ("getBoolParam", "inherited", false, true)]);
   ("/api/loc/rules/rem", [("GetStringParam", "id", true, true); ("GetStringParam", "location", true, true)]);
-  ("/api/loc/util/js", [("GetStringParam", "location", true, true); ("GetStringParam", "code", true, false); ("GetStringParam", "encoding", false, false)])].
+  ("/api/loc/util/js", [("GetStringParam", "location", true, true); ("GetStringParam", "code", true, true); ("GetStringParam", "encoding", false, false)])].
 
-(** Re-dispatch effects of the two composite operations. *)
+(** Re-dispatch effects of the two composite operations (the error of each
+    inner request is returned). *)
 Definition svc_loc_effects : list (string * list string) := [
-  ("/api/loc/facts/replace", ["set:uri=/api/loc/facts/search"; "set:take=true"; "redispatch:ignored:discard";
-                              "set:uri=/api/loc/facts/add"; "redispatch:ignored:out"]);
-  ("/api/loc/facts/take", ["set:uri=/api/loc/facts/search"; "set:take=true"; "redispatch:ignored:out"])].
+  ("/api/loc/facts/replace", ["set:uri=/api/loc/facts/search"; "set:take=true"; "redispatch:checked:discard";
+                              "set:uri=/api/loc/facts/add"; "redispatch:checked:out"]);
+  ("/api/loc/facts/take", ["set:uri=/api/loc/facts/search"; "set:take=true"; "redispatch:checked:out"])].
 
 (** Every case label of ProcessRequest. *)
 Definition svc_process_uris : list string := [
@@ -318,9 +319,9 @@ Inductive plan :=
 | PCall (method : string) (args : list json) (take : bool)
     (** one System call; [take]: every fact of the answer is then removed
         (RemFact), removal errors are only logged *)
-| PNone                     (** nothing is called, success is reported *)
 | PIgnore (p : plan)        (** p runs; its error, if any, is not reported *)
-| PSeq (p q : plan).        (** p (its output is discarded), then q *)
+| PSeq (p q : plan)         (** p (its output is discarded); if it succeeds, then q *)
+| PErr (e : string).        (** an error is reported at this point *)
 
 (** The bound results of the getters of one case: name -> (value, have). *)
 Definition bindings := list (string * (json * bool)).
@@ -414,29 +415,39 @@ Definition dispatch_plain (uri : string) (m : params) : outcome plan :=
       end
   end.
 
-(** A recursive ProcessRequest whose results are thrown away. *)
-Definition ignored (r : outcome plan) : outcome plan :=
-  match r with
-  | Ok p => Ok (PIgnore p)
-  | Err _ => Ok PNone
-  | Panic w => Panic w
-  | OutOfFuel => OutOfFuel
-  end.
-
 (** One request map [m] whose normalised uri is [uri].  [OutOfFuel] means
-    "a case of ProcessRequest that this model does not cover". *)
+    "a case of ProcessRequest that this model does not cover".
+
+    take = search with m["take"] set; its error is returned.
+    replace = its own getters (fact, id: nothing is taken when the add would
+    be rejected), then the search-and-take, then the add; the error of either
+    inner request is returned.  If the add were rejected after the take, the
+    take has happened: [PSeq p (PErr e)] (replace_add_not_rejected shows this
+    does not occur). *)
 Definition dispatch (uri : string) (m : params) : outcome plan :=
   if String.eqb uri "/api/loc/facts/take" then
     let m' := ainsert "take" (JBool true) (ainsert "uri" (JStr "/api/loc/facts/search") m) in
-    ignored (dispatch_plain "/api/loc/facts/search" m')
+    dispatch_plain "/api/loc/facts/search" m'
   else if String.eqb uri "/api/loc/facts/replace" then
-    let m1 := ainsert "take" (JBool true) (ainsert "uri" (JStr "/api/loc/facts/search") m) in
-    let m2 := ainsert "uri" (JStr "/api/loc/facts/add") m1 in
-    match ignored (dispatch_plain "/api/loc/facts/search" m1), ignored (dispatch_plain "/api/loc/facts/add" m2) with
-    | Ok p, Ok q => Ok (PSeq p q)
-    | Panic w, _ => Panic w
-    | _, Panic w => Panic w
-    | _, _ => OutOfFuel
+    match alookup uri svc_loc_getters with
+    | None => Err "unknown uri"
+    | Some gs =>
+        match run_getters gs m [] with
+        | Ok _ =>
+            let m1 := ainsert "take" (JBool true) (ainsert "uri" (JStr "/api/loc/facts/search") m) in
+            let m2 := ainsert "uri" (JStr "/api/loc/facts/add") m1 in
+            match dispatch_plain "/api/loc/facts/search" m1 with
+            | Ok p =>
+                match dispatch_plain "/api/loc/facts/add" m2 with
+                | Ok q => Ok (PSeq p q)
+                | Err e => Ok (PSeq p (PErr e))
+                | Panic w => Panic w
+                | OutOfFuel => OutOfFuel
+                end
+            | Err e => Err e | Panic w => Panic w | OutOfFuel => OutOfFuel
+            end
+        | Err e => Err e | Panic w => Panic w | OutOfFuel => OutOfFuel
+        end
     end
   else if has_prefix "/api/loc/" uri then dispatch_plain uri m
   else if mem_str uri svc_process_uris then OutOfFuel
@@ -619,10 +630,10 @@ Definition direct_call (r : logical_request) : outcome plan :=
   else if String.eqb u "/api/loc/facts/search" then
     Ok (PCall "SearchFacts" [loc; lmap "pattern" r; lbool "inherited" r] false)
   else if String.eqb u "/api/loc/facts/take" then
-    Ok (PIgnore (PCall "SearchFacts" [loc; lmap "pattern" r; lbool "inherited" r] true))
+    Ok (PCall "SearchFacts" [loc; lmap "pattern" r; lbool "inherited" r] true)
   else if String.eqb u "/api/loc/facts/replace" then
-    Ok (PSeq (PIgnore (PCall "SearchFacts" [loc; lmap "pattern" r; lbool "inherited" r] true))
-             (PIgnore (PCall "AddFact" [loc; id; lmap "fact" r] false)))
+    Ok (PSeq (PCall "SearchFacts" [loc; lmap "pattern" r; lbool "inherited" r] true)
+             (PCall "AddFact" [loc; id; lmap "fact" r] false))
   else if String.eqb u "/api/loc/parents" then
     match lparam "set" r with
     | Some (LStr s) => Ok (PCall "SetParents" [loc; JStr s] false)
